@@ -87,6 +87,7 @@ type scen struct {
 	C         *acct // funded single-sig, possibly blocked
 	D         *acct // never funded
 	E         *acct // funded with very little
+	V, F      *acct // deployed contracts whose verify() returns true / false
 	NC        *acct // funded; a multisig account whose script encodes m / n with a non-minimal integer push
 	ncForms   [2]int
 	committee *acct
@@ -231,6 +232,16 @@ func newScen(r *prng.R, o *hx.Out, mtbSmall bool) *scen {
 	}
 	o.Count(fmt.Sprintf("chain:feePerByte=%s", bucket(s.pol.feePerByte, []int64{0, 999, 1000, 1001})))
 	o.Count(fmt.Sprintf("chain:base%%10000=%v", s.pol.base%10000 != 0))
+	// contract-based verification
+	s.V = w.deployVerifier("verifier-true", r.Range(0, 40), true)
+	s.F = w.deployVerifier("verifier-false", r.Range(0, 5), false)
+	for _, a := range []*acct{s.V, s.F} {
+		used, err := w.bc.VerifyWitness(a.hash, dummyTx(a.hash), &transaction.Witness{}, 1<<40)
+		if err != nil && !errors.Is(err, core.ErrInvalidSignature) {
+			panic(fmt.Sprintf("contract verification: %v", err))
+		}
+		a.cost = used
+	}
 	// X: a plain transaction of A on chain.
 	c := s.newCand(r, []*acct{s.A}, 0)
 	c.finish(0)
@@ -304,7 +315,11 @@ func (s *scen) newCand(r *prng.R, signers []*acct, pad int) *cand {
 	for _, a := range signers {
 		tx.Signers = append(tx.Signers, transaction.Signer{Account: a.hash, Scopes: scopes[r.Intn(3)]})
 		c.wk = append(c.wk, witGood)
-		c.which = append(c.which, a.defaultWhich())
+		if a.contract {
+			c.which = append(c.which, nil)
+		} else {
+			c.which = append(c.which, a.defaultWhich())
+		}
 	}
 	return c
 }
@@ -319,6 +334,12 @@ func (c *cand) calculator() {
 	c.tx.Scripts = saved
 	var exec int64
 	for _, a := range c.accts {
+		if a.contract {
+			// what a wallet does for contract-based witnesses: a test run (neotest/basic.go:341-359, rpcsrv/server.go:1040-1050)
+			exec += a.cost
+			size += 2
+			continue
+		}
 		f, sz := fee.Calculate(s.pol.base, a.script)
 		exec += f
 		size += sz
@@ -345,6 +366,9 @@ func (c *cand) calculator() {
 
 // neotestSigner wraps an account of the harness as a neotest.Signer (nil for hand-made scripts).
 func neotestSigner(a *acct) neotest.Signer {
+	if a.contract {
+		return nil
+	}
 	if a.m == 0 {
 		return neotest.NewSingleSigner(wallet.NewAccountFromPrivateKey(a.privs[0]))
 	}
@@ -399,6 +423,11 @@ func (c *cand) sign() {
 	fresh := c.tx.Copy()
 	*c.tx = *fresh
 	for i, a := range c.accts {
+		if a.contract {
+			c.sigs = append(c.sigs, nil)
+			c.tx.Scripts = append(c.tx.Scripts, transaction.Witness{InvocationScript: []byte{}, VerificationScript: []byte{}})
+			continue
+		}
 		sg := a.sigs(magic, c.tx, c.which[i])
 		c.sigs = append(c.sigs, sg)
 		c.tx.Scripts = append(c.tx.Scripts, transaction.Witness{InvocationScript: invocation(sg), VerificationScript: a.script})
@@ -453,6 +482,13 @@ type poolInfo struct {
 
 func (c *cand) witToken(i int) string {
 	w := c.tx.Scripts[i]
+	if a := c.accts[i]; a.contract && c.wk[i] == witGood {
+		kind := "o"
+		if !a.returns {
+			kind = "i"
+		}
+		return fmt.Sprintf("Q %d %s", a.cost, kind)
+	}
 	if len(w.VerificationScript) == 0 {
 		return "M"
 	}
@@ -621,6 +657,7 @@ var invKinds = []string{
 	"fee+", "expired", "vub-far", "blocked", "bad-script", "sysfee-big", "on-chain", "stub-common", "stub-disjoint", "stub-old",
 	"bad-sig", "missing-sig", "wrong-key", "empty-verif", "swapped-sigs", "nvb-future", "conflicts-dup", "conflicts-onchain",
 	"hp-no-committee", "reserved", "oracle", "notary", "no-funds", "dup-signers", "below-need", "pool-dup", "two", "noncanon",
+	"contract", "contract", "contract-fee-1", "contract-false",
 	"at-need", "oversized", "max-size", "dup-attr", "too-many", "version", "empty-script",
 }
 
@@ -693,6 +730,13 @@ func runAdmit(o *hx.Out, k int, r *prng.R, inv string) {
 		} else {
 			signers = append([]*acct{s.E}, signers...)
 		}
+	case "contract", "contract-fee-1":
+		signers = append(signers, s.V)
+		if r.Bool() && len(signers) > 2 {
+			signers[1], signers[len(signers)-1] = signers[len(signers)-1], signers[1]
+		}
+	case "contract-false":
+		signers = append(signers, s.F)
 	case "noncanon":
 		signers = []*acct{s.NC}
 		if r.Bool() {
@@ -765,9 +809,11 @@ func runAdmit(o *hx.Out, k int, r *prng.R, inv string) {
 		switch what {
 		case "none", "pool-dup", "noncanon":
 			expect = "ok"
-		case "fee-1":
+		case "fee-1", "contract-fee-1":
 			delta = -1
 			expect = "reject-fee"
+		case "contract":
+			expect = "ok"
 		case "fee+":
 			delta = int64(r.Range(1, 100000))
 			expect = "ok"
@@ -893,6 +939,9 @@ func runAdmit(o *hx.Out, k int, r *prng.R, inv string) {
 	// witness-level invalidities (after signing)
 	for _, what := range []string{inv, second} {
 		wi := r.Intn(len(signers))
+		for signers[wi].contract {
+			wi = r.Intn(len(signers))
+		}
 		switch what {
 		case "bad-sig":
 			c.applyWit(r, wi, witBadSig)
@@ -1003,6 +1052,10 @@ func runAdmit(o *hx.Out, k int, r *prng.R, inv string) {
 		gas := tx.NetworkFee - c.need
 		for i := range tx.Scripts {
 			wt := tx.Scripts[i]
+			if c.accts[i].contract && c.wk[i] == witGood && gas >= c.accts[i].cost && c.accts[i].returns {
+				gas -= c.accts[i].cost
+				continue
+			}
 			if len(wt.VerificationScript) == 0 || gas < 0 {
 				break
 			}
